@@ -52,6 +52,7 @@ def assert_repo_import() -> None:
 class Failure:
     bucket: str  # short stable name of what failed (root-cause bucket as far as the oracle can tell)
     detail: str  # human-readable: observed vs expected
+    data: dict = field(default_factory=dict)  # structured facts for known-finding signatures
 
     def to_json(self) -> dict[str, str]:
         return {"bucket": self.bucket, "detail": self.detail}
